@@ -2831,20 +2831,28 @@ class LinearOperator(object):
 
         # If we're indexing the LT with ints or slices
         # Replace the ints with slices, and we'll just squeeze the dimensions later
+        # (`i + 1 or None`: the slice for i = -1 must be -1:None, not the empty -1:0).
+        # When the row/column indices are absorbed, ints stay ints: _convert_indices_to_tensors handles them,
+        # and - as in torch - they do not break up a contiguous run of tensor indices.
         squeeze_row = False
         squeeze_col = False
-        if isinstance(row_index, int):
-            row_index = slice(row_index, row_index + 1, None)
-            squeeze_row = True
-        if isinstance(col_index, int):
-            col_index = slice(col_index, col_index + 1, None)
-            squeeze_col = True
+        if not row_col_are_absorbed:
+            if isinstance(row_index, int):
+                row_index = slice(row_index, (row_index + 1) or None, None)
+                squeeze_row = True
+            if isinstance(col_index, int):
+                col_index = slice(col_index, (col_index + 1) or None, None)
+                squeeze_col = True
 
         # Call self._getitem - now that the index has been processed
         # Alternatively, if we're using tensor indices and losing dimensions, use self._get_indices
         if row_col_are_absorbed:
             # Get broadcasted size of existing tensor indices
-            orig_indices = [*batch_indices, row_index, col_index]
+            # (int indices are made non-negative: the _get_indices implementations do arithmetic on index values)
+            orig_indices = [
+                idx + size if isinstance(idx, int) and idx < 0 else idx
+                for idx, size in zip([*batch_indices, row_index, col_index], self.shape)
+            ]
             tensor_index_shape = torch.broadcast_shapes(*[idx.shape for idx in orig_indices if torch.is_tensor(idx)])
             # Flatten existing tensor indices
             flattened_orig_indices = [
@@ -2862,7 +2870,13 @@ class LinearOperator(object):
                 if _is_tensor_index_moved_to_start(orig_indices):
                     res = res.view(*tensor_index_shape, *res.shape[1:])
                 else:
-                    res = res.view(*res.shape[:-1], *tensor_index_shape)
+                    # the flattened tensor-index dimension sits after the slices that precede the first tensor index
+                    tensor_dim = 0
+                    for idx in orig_indices:
+                        if torch.is_tensor(idx):
+                            break
+                        tensor_dim += isinstance(idx, slice)
+                    res = res.view(*res.shape[:tensor_dim], *tensor_index_shape, *res.shape[tensor_dim + 1 :])
         else:
             res = self._getitem(row_index, col_index, *batch_indices)
 
